@@ -156,6 +156,17 @@ def expected_safe(I, op):
         return expected_safe(I, I.getattr_value(op, 'right'))
     if cn in ('OperatorLeftScalarMult', 'OperatorLeftVectorMult'):
         return expected_safe(I, I.getattr_value(op, 'operator'))
+    if cn == 'ProductSpaceOperator':
+        # a general block operator reads x[j] after writing out[i]: only the
+        # diagonal layout (what the solvers build through combine_proximals
+        # / DiagonalOperator) can be applied in place
+        try:
+            ops = I.getattr_value(op, 'ops')
+            rows = list(I.seq(I.getattr_value(ops, 'row')))
+            cols = list(I.seq(I.getattr_value(ops, 'col')))
+        except (Undecided, Fork, PyRaise, AttributeError, TypeError):
+            return False
+        return all(to_rat(r) == to_rat(c) for r, c in zip(rows, cols))
     return op.ci.rel in SCOPE_FILES
 
 
